@@ -16,29 +16,33 @@ Fixpoint xprs (g : query -> list edge) (ps : nat -> xpres) (i : nat) (qs : list 
                 else xprs g ps (S i) qs'
   end.
 
-Lemma xcollect_sync_err g ps qs : forall i id n,
+(** no call answers with a non-slice value (those have their own theorems below) *)
+Definition no_bad (ps : nat -> xpres) : Prop := forall j, xerr (ps j) <> BadValue.
+
+Lemma xcollect_sync_err g ps qs : no_bad ps -> forall i id n,
   first_sync_err ps i qs = Some (id, n) -> xcollect true g ps i qs = CErr id n.
 Proof.
-  induction qs as [|q qs IH]; intros i id n H; [discriminate|].
+  intro Hnb. induction qs as [|q qs IH]; intros i id n H; [discriminate|].
   cbn [first_sync_err] in H. cbn [xcollect]. unfold fails_sync in H.
   destruct (by_promise (xp (ps i))) eqn:Hp.
   - rewrite (IH _ _ _ H). reflexivity.
-  - destruct (xerr (ps i)) eqn:He.
+  - pose proof (Hnb i) as Hb. destruct (xerr (ps i)) eqn:He.
     + rewrite (IH _ _ _ H). reflexivity.
     + inversion H. reflexivity.
     + rewrite (IH _ _ _ H). reflexivity.
+    + congruence.
 Qed.
 
-Lemma xcollect_no_sync_err g ps qs : forall i,
+Lemma xcollect_no_sync_err g ps qs : no_bad ps -> forall i,
   first_sync_err ps i qs = None ->
   xcollect true g ps i qs = COk (fst (collect g (hand ps) i qs)) (xprs g ps i qs).
 Proof.
-  induction qs as [|q qs IH]; intros i H; [reflexivity|].
+  intro Hnb. induction qs as [|q qs IH]; intros i H; [reflexivity|]. pose proof (Hnb i) as Hb.
   cbn [first_sync_err] in H. cbn [xcollect collect xprs]. unfold fails_sync in H. change (hand ps i) with (xp (ps i)).
   destruct (collect g (hand ps) (S i) qs) as [es prs] eqn:Hc.
   destruct (by_promise (xp (ps i))) eqn:Hp.
   - rewrite (IH _ H), Hc. reflexivity.
-  - destruct (xerr (ps i)) eqn:He; try discriminate;
+  - destruct (xerr (ps i)) eqn:He; try discriminate; try congruence;
       rewrite (IH _ H), Hc; cbn [fst]; destruct (present (xp (ps i)) (g q)); reflexivity.
 Qed.
 
@@ -50,15 +54,23 @@ Proof.
   destruct (xerr (ps i)); cbn [first_perr]; try apply IH. reflexivity.
 Qed.
 
-Lemma xprs_no_promise_err g ps qs : forall i,
+Lemma has_pbad_xprs g ps qs : no_bad ps -> forall i, has_pbad (xprs g ps i qs) = false.
+Proof.
+  intro Hnb. induction qs as [|q qs IH]; intro i; [reflexivity|].
+  cbn [xprs]. destruct (by_promise (xp (ps i))); [|apply IH].
+  unfold has_pbad in *. cbn [existsb]. rewrite IH. unfold promised.
+  pose proof (Hnb i). destruct (xerr (ps i)); try reflexivity. congruence.
+Qed.
+
+Lemma xprs_no_promise_err g ps qs : no_bad ps -> forall i,
   first_promise_err ps i qs = None ->
   xprs g ps i qs = map PVal (snd (collect g (hand ps) i qs)).
 Proof.
-  induction qs as [|q qs IH]; intros i H; [reflexivity|].
+  intro Hnb. induction qs as [|q qs IH]; intros i H; [reflexivity|]. pose proof (Hnb i) as Hb.
   cbn [first_promise_err] in H. cbn [xprs collect]. unfold fails_promise, promised in *. change (hand ps i) with (xp (ps i)).
   destruct (collect g (hand ps) (S i) qs) as [es prs] eqn:Hc.
   destruct (by_promise (xp (ps i))) eqn:Hp.
-  - destruct (xerr (ps i)) eqn:He; try discriminate; rewrite (IH _ H), Hc; reflexivity.
+  - destruct (xerr (ps i)) eqn:He; try discriminate; try congruence; rewrite (IH _ H), Hc; reflexivity.
   - rewrite (IH _ H), Hc. cbn [snd]. destruct (present (xp (ps i)) (g q)); reflexivity.
 Qed.
 
@@ -72,25 +84,26 @@ Definition lift_res (r : option (list edge)) : xres :=
 
 (** the whole fetch: a failing call decides the result as [winner] says; otherwise the adapter
     computes what the error-free transcription computes *)
-Theorem xresolve_winner V g ps qs :
+Theorem xresolve_winner V g ps qs : no_bad ps ->
   xresolve V true g ps qs =
   match winner ps qs with
   | Some (id, n) => (XRErr id, n)
   | None => (lift_res (resolve_edges V g (hand ps) qs), length qs)
   end.
 Proof.
-  unfold xresolve, winner.
+  intro Hnb. unfold xresolve, winner.
   destruct (first_sync_err ps 0 qs) as [[id n]|] eqn:Hs.
-  - rewrite (xcollect_sync_err g ps qs 0%nat id n Hs). reflexivity.
-  - rewrite (xcollect_no_sync_err g ps qs 0%nat Hs).
+  - rewrite (xcollect_sync_err g ps qs Hnb 0%nat id n Hs). reflexivity.
+  - rewrite (xcollect_no_sync_err g ps qs Hnb 0%nat Hs).
     pose proof (first_perr_xprs g ps qs 0%nat) as Hf.
+    pose proof (has_pbad_xprs g ps qs Hnb 0%nat) as Hbad.
     destruct (first_promise_err ps 0 qs) as [id|] eqn:Hp.
     + destruct (xprs g ps 0 qs) as [|r prs]; [discriminate|]. rewrite Hf. reflexivity.
-    + rewrite (xprs_no_promise_err g ps qs 0%nat Hp). unfold resolve_edges.
-      destruct (collect g (hand ps) 0 qs) as [es prs]. cbn [fst snd].
+    + rewrite (xprs_no_promise_err g ps qs Hnb 0%nat Hp) in *. unfold resolve_edges.
+      destruct (collect g (hand ps) 0 qs) as [es prs]. cbn [fst snd] in *.
       destruct prs as [|r prs]; [reflexivity|].
-      cbn [map]. change (PVal r :: map PVal prs) with (map PVal (r :: prs)).
-      rewrite first_perr_vals, pvals_vals. reflexivity.
+      cbn [map] in *. change (PVal r :: map PVal prs) with (map PVal (r :: prs)) in *.
+      rewrite first_perr_vals, pvals_vals, Hbad. reflexivity.
 Qed.
 
 (** ** The connection field *)
@@ -118,16 +131,16 @@ Definition with_total (s : sel) (tc : tcres) (r : outcome * list query) : xoutco
   end.
 
 (** no issued call fails: the connection is the error-free transcription plus totalCount *)
-Theorem xconn_no_failure V g ps s tc a :
+Theorem xconn_no_failure V g ps s tc a : no_bad ps ->
   winner ps (range_queries V (cur_of (a_after a)) (cur_of (a_before a)) (a_from a) (a_to a) (limit_of a)) = None ->
   xconn V true g ps s tc a = with_total s tc (conn V g (hand ps) (want_info s) a).
 Proof.
-  intro Hw. unfold xconn, conn, with_total.
+  intros Hnb Hw. unfold xconn, conn, with_total.
   destruct (arg_error a); [reflexivity|].
   fold (lazy_of a). fold (total_err_of s tc) (total_of s tc) (tc_calls_of s).
   destruct (lazy_of a && negb (want_info s)) eqn:Hl.
   - cbn [fst snd]. destruct (total_err_of s tc); reflexivity.
-  - rewrite xresolve_winner, Hw.
+  - rewrite xresolve_winner by exact Hnb. rewrite Hw.
     destruct (resolve_edges V g (hand ps) _) as [fetched|]; cbn [lift_res fst snd]; [|reflexivity].
     destruct (edges_to_return _ _ _ _ fetched) as [es info]. cbn [fst snd].
     destruct (total_err_of s tc); reflexivity.
@@ -135,7 +148,7 @@ Qed.
 
 (** an issued call fails: the field is null with exactly the error [winner] names, only the
     queries up to a synchronous failure were issued, and there is no page *)
-Theorem xconn_failure V g ps s tc a id n :
+Theorem xconn_failure V g ps s tc a id n : no_bad ps ->
   arg_error a = false -> fetches s a = true ->
   winner ps (range_queries V (cur_of (a_after a)) (cur_of (a_before a)) (a_from a) (a_to a) (limit_of a)) = Some (id, n) ->
   exists more tcn,
@@ -145,10 +158,10 @@ Theorem xconn_failure V g ps s tc a id n :
     /\ more = (if lazy_of a then total_err_of s tc else [])
     /\ (lazy_of a = false -> tcn = Some O).
 Proof.
-  intros Ha Hf Hw. unfold xconn. rewrite Ha.
+  intros Hnb Ha Hf Hw. unfold xconn. rewrite Ha.
   fold (lazy_of a). fold (total_err_of s tc).
   unfold fetches in Hf. apply negb_true_iff in Hf. rewrite Hf.
-  rewrite xresolve_winner, Hw.
+  rewrite xresolve_winner by exact Hnb. rewrite Hw.
   eexists. eexists. split; [reflexivity|]. split; [reflexivity|].
   intro Hl. rewrite Hl. reflexivity.
 Qed.
@@ -249,18 +262,18 @@ Qed.
 (** ** The statements closed in Properties/C16.v *)
 
 (** a page is returned only if no issued call failed: no partial page *)
-Theorem xconn_page_no_failure g ps s tc a es info total issued tcn :
+Theorem xconn_page_no_failure g ps s tc a es info total issued tcn : no_bad ps ->
   xconn current true g ps s tc a = (XPage es info total, issued, tcn) ->
   forall j, (j < length issued)%nat -> call_fails (ps j) = None.
 Proof.
-  intros H j Hj.
+  intros Hnb H j Hj.
   destruct (arg_error a) eqn:Ha; [unfold xconn in H; rewrite Ha in H; discriminate|].
   destruct (fetches s a) eqn:Hf.
   - fold (queries_of a) in *.
     destruct (winner ps (queries_of a)) as [[id n]|] eqn:Hw.
-    + destruct (xconn_failure current g ps s tc a id n Ha Hf Hw) as [more [tcn' [Hx _]]].
+    + destruct (xconn_failure current g ps s tc a id n Hnb Ha Hf Hw) as [more [tcn' [Hx _]]].
       rewrite Hx in H. discriminate.
-    + rewrite (xconn_no_failure current g ps s tc a Hw) in H.
+    + rewrite (xconn_no_failure current g ps s tc a Hnb Hw) in H.
       apply (winner_complete ps (queries_of a) Hw).
       unfold with_total in H.
       destruct (conn current g (hand ps) (want_info s) a) as [o qs'] eqn:Hc. cbn [fst snd] in H.
@@ -282,14 +295,14 @@ Qed.
     application's answer, one ResolveTotalCount call iff selected; any mixture of hand-overs *)
 Theorem xconn_result E g ps s tc a :
   honours g E -> NoDup E -> representable E -> args_ok a = true ->
-  (forall j, call_fails (ps j) = None) ->
+  no_bad ps -> (forall j, call_fails (ps j) = None) ->
   match total_err_of s tc with
   | [] => exists info, fst (fst (xconn current true g ps s tc a)) = XPage (TimeRef E a) info (total_of s tc)
                        /\ snd (xconn current true g ps s tc a) = Some (tc_calls_of s)
   | errs => fst (fst (xconn current true g ps s tc a)) = XFieldError errs
   end.
 Proof.
-  intros Hg HE HR Hok Hq.
+  intros Hg HE HR Hok Hnb Hq.
   assert (Hw : winner ps (queries_of a) = None).
   { unfold winner.
     destruct (first_sync_err ps 0 (queries_of a)) as [[id n]|] eqn:Hs.
@@ -302,7 +315,7 @@ Proof.
       specialize (Hq k). rewrite call_fails_split in Hq.
       pose proof Hk as Hk'. unfold fails_promise in Hk'.
       destruct (by_promise (xp (ps k))); [congruence | discriminate Hk']. }
-  rewrite (xconn_no_failure current g ps s tc a Hw). unfold with_total.
+  rewrite (xconn_no_failure current g ps s tc a Hnb Hw). unfold with_total.
   destruct (time_result_eq E g Hg HE HR (hand ps) a (want_info s) Hok) as [info Hc].
   rewrite Hc. destruct (total_err_of s tc); [|reflexivity].
   exists info. split; reflexivity.
@@ -339,7 +352,7 @@ Proof.
 Qed.
 
 Lemma first_perr_app a b : first_perr (a ++ b) = match first_perr a with Some id => Some id | None => first_perr b end.
-Proof. induction a as [|[r|id] a IH]; cbn; auto. Qed.
+Proof. induction a as [|[r|id|] a IH]; cbn; auto. Qed.
 Lemma pvals_app a b : pvals (a ++ b) = pvals a ++ pvals b.
 Proof. unfold pvals. apply flat_map_app. Qed.
 
@@ -362,12 +375,15 @@ Proof.
   - assert (Hlt : (k < length prs)%nat) by (apply nth_error_Some; congruence).
     destruct (existsb (Nat.eqb k) mail) eqn:Hm.
     + pose proof (firstn_S_nth prs k r Hnth) as HS.
-      destruct r as [v|id].
+      destruct r as [v|id|].
       * apply IH; [lia | lia | |].
         -- rewrite HS, first_perr_app, Hn. reflexivity.
         -- rewrite HS, pvals_app, Hacc. reflexivity.
       * cbn [jinv].
         rewrite <- (firstn_skipn (S k) prs), first_perr_app, HS, first_perr_app, Hn. reflexivity.
+      * apply IH; [lia | lia | |].
+        -- rewrite HS, first_perr_app, Hn. reflexivity.
+        -- rewrite HS, pvals_app, Hacc. cbn. rewrite app_nil_r. reflexivity.
     + cbn [jinv]. auto.
   - apply nth_error_None in Hnth. assert (k = length prs) by lia. subst k.
     rewrite firstn_all in *. cbn [jinv]. auto.
@@ -434,4 +450,136 @@ Proof.
     congruence.
   - congruence.
   - destruct H as [H1 _]. congruence.
+Qed.
+
+(** ** Answers that are neither nil nor a slice (fifth repair) *)
+
+Lemma xcollect_no_real_err g ps qs : (forall j, call_fails (ps j) = None) -> forall i,
+  (exists n, xcollect true g ps i qs = CNonSlice n)
+  \/ (exists es prs, xcollect true g ps i qs = COk es prs /\ first_perr prs = None).
+Proof.
+  intro Hq. induction qs as [|q qs IH]; intro i.
+  - right. exists [], []. split; reflexivity.
+  - cbn [xcollect]. pose proof (Hq i) as Hi. unfold call_fails in Hi.
+    destruct (IH (S i)) as [[n Hn]|[es [prs [Hc Hf]]]].
+    + destruct (by_promise (xp (ps i))).
+      * rewrite Hn. left. exists n. reflexivity.
+      * destruct (xerr (ps i)); try discriminate; rewrite ?Hn; left; eexists; reflexivity.
+    + destruct (by_promise (xp (ps i))).
+      * rewrite Hc. right. exists es, (promised (ps i) (g q) :: prs). split; [reflexivity|].
+        unfold promised. destruct (xerr (ps i)); try discriminate; cbn [first_perr]; exact Hf.
+      * destruct (xerr (ps i)); try discriminate; rewrite ?Hc.
+        -- right. destruct (present (xp (ps i)) (g q)); eexists; eexists; split; try reflexivity; exact Hf.
+        -- right. destruct (present (xp (ps i)) (g q)); eexists; eexists; split; try reflexivity; exact Hf.
+        -- left. eexists. reflexivity.
+Qed.
+
+Lemma xcollect_bad g ps qs : (forall j, call_fails (ps j) = None) -> forall i,
+  (exists k, (i <= k < i + length qs)%nat /\ xerr (ps k) = BadValue) ->
+  (exists n, xcollect true g ps i qs = CNonSlice n)
+  \/ (exists es prs, xcollect true g ps i qs = COk es prs /\ first_perr prs = None /\ has_pbad prs = true).
+Proof.
+  intro Hq. induction qs as [|q qs IH]; intros i [k [Hk Hb]]; [cbn in Hk; lia|].
+  cbn [xcollect]. pose proof (Hq i) as Hi. unfold call_fails in Hi.
+  destruct (Nat.eq_dec k i) as [->|Hne].
+  - (* this call answers the bad value *)
+    rewrite Hb. destruct (by_promise (xp (ps i))).
+    + destruct (xcollect_no_real_err g ps qs Hq (S i)) as [[n Hn]|[es [prs [Hc Hf]]]]; rewrite ?Hn, ?Hc.
+      * left. eexists. reflexivity.
+      * right. exists es, (promised (ps i) (g q) :: prs). split; [reflexivity|].
+        unfold promised. rewrite Hb. cbn [first_perr]. split; [exact Hf | reflexivity].
+    + left. eexists. reflexivity.
+  - destruct (IH (S i)) as [[n Hn]|[es [prs [Hc [Hf Hp]]]]].
+    { exists k. split; [cbn [length] in Hk; lia | exact Hb]. }
+    + destruct (by_promise (xp (ps i))).
+      * rewrite Hn. left. eexists. reflexivity.
+      * destruct (xerr (ps i)); try discriminate; rewrite ?Hn; left; eexists; reflexivity.
+    + destruct (by_promise (xp (ps i))).
+      * rewrite Hc. right. exists es, (promised (ps i) (g q) :: prs). split; [reflexivity|].
+        unfold promised, has_pbad in *. destruct (xerr (ps i)); try discriminate; cbn [first_perr existsb];
+          rewrite ?Hp, ?orb_true_r; split; try exact Hf; reflexivity.
+      * destruct (xerr (ps i)); try discriminate; rewrite ?Hc.
+        -- right. destruct (present (xp (ps i)) (g q)); eexists; eexists; (split; [reflexivity | split; assumption]).
+        -- right. destruct (present (xp (ps i)) (g q)); eexists; eexists; (split; [reflexivity | split; assumption]).
+        -- left. eexists. reflexivity.
+Qed.
+
+(** a non-slice answer of a call that is issued, no real error anywhere: the field is null with
+    the "non-slice" error — no page, no crash *)
+Theorem xconn_bad_value V g ps s tc a k :
+  arg_error a = false -> fetches s a = true ->
+  (forall j, call_fails (ps j) = None) ->
+  (k < length (range_queries V (cur_of (a_after a)) (cur_of (a_before a)) (a_from a) (a_to a) (limit_of a)))%nat ->
+  xerr (ps k) = BadValue ->
+  exists more, fst (fst (xconn V true g ps s tc a)) = XFieldError (ENonSlice :: more).
+Proof.
+  intros Ha Hf Hq Hk Hb. unfold xconn. rewrite Ha. fold (lazy_of a).
+  unfold fetches in Hf. apply negb_true_iff in Hf. rewrite Hf.
+  set (qs := range_queries V _ _ _ _ _) in *.
+  unfold xresolve.
+  destruct (xcollect_bad g ps qs Hq 0%nat) as [[n Hn]|[es [prs [Hc [Hfp Hp]]]]].
+  { exists k. split; [lia | exact Hb]. }
+  - rewrite Hn. eexists. reflexivity.
+  - rewrite Hc. destruct prs as [|r prs]; [discriminate|]. rewrite Hfp, Hp. eexists. reflexivity.
+Qed.
+
+(** nothing a getter can answer, and no way of handing it over, crashes the adapter any more *)
+Lemma xcollect_true_no_panic g ps qs : forall i n, xcollect true g ps i qs <> CPanic n.
+Proof.
+  induction qs as [|q qs IH]; intros i n; [discriminate|].
+  cbn [xcollect]. specialize (IH (S i)).
+  destruct (by_promise (xp (ps i))).
+  - destruct (xcollect true g ps (S i) qs) eqn:E; try discriminate. intro H. inversion H; subst. exact (IH _ eq_refl).
+  - destruct (xerr (ps i)); try discriminate;
+      (destruct (xcollect true g ps (S i) qs) eqn:E; try discriminate;
+       [intro H; inversion H; subst; exact (IH _ eq_refl)
+       | destruct (present (xp (ps i)) (g q)); discriminate]).
+Qed.
+
+Lemma join_part_no_panic es prs :
+  (match prs with
+   | [] => XROk es
+   | _ :: _ => match first_perr prs with
+               | Some id => XRErr id
+               | None => if has_pbad prs then XRNonSlice
+                         else match join_cb current es (pvals prs) with
+                              | Some l => XROk l | None => XRPanic end
+               end
+   end) <> XRPanic.
+Proof.
+  destruct prs as [|p prs]; [discriminate|]. destruct (first_perr _); [discriminate|].
+  destruct (has_pbad _); [discriminate|].
+  rewrite (join_cb_skip current es (pvals (p :: prs)) eq_refl). discriminate.
+Qed.
+
+Theorem xconn_no_panic g ps s tc a : fst (fst (xconn current true g ps s tc a)) <> XPanic.
+Proof.
+  unfold xconn. destruct (arg_error a); [discriminate|].
+  destruct (_ && negb (want_info s)).
+  - destruct (if want_total s then _ else _); discriminate.
+  - unfold xresolve.
+    destruct (xcollect true g ps 0 _) as [id n|n|n|n|es prs] eqn:Hc; cbn [fst snd];
+      try discriminate.
+    + exfalso. exact (xcollect_true_no_panic g ps _ _ _ Hc).
+    + pose proof (join_part_no_panic es prs) as Hres. cbv beta iota in Hres.
+      match goal with |- context [match ?x with XRErr _ => _ | _ => _ end] => destruct x eqn:Hx end;
+        try discriminate; try congruence.
+      destruct (edges_to_return _ _ _ _ l). destruct (if want_total s then _ else _); discriminate.
+Qed.
+
+(** before the fifth repair: a promise resolving to a non-slice value (for example to another
+    promise) ends the process, a synchronous one panics in the resolver *)
+Definition bad_promise : nat -> xpres :=
+  fun _ => {| xp := {| by_promise := true; nil_when_empty := false |}; xerr := BadValue |}.
+Definition bad_sync : nat -> xpres := fun _ => {| xp := sync_pres; xerr := BadValue |}.
+
+Theorem non_slice_panic_before_fix :
+  exists g a,
+    args_ok a = true /\
+    fst (fst (xconn current false g bad_promise s_info (TCVal 0) a)) = XPanic /\
+    fst (fst (xconn current false g bad_sync s_info (TCVal 0) a)) = XPanic /\
+    fst (fst (xconn current true g bad_promise s_info (TCVal 0) a)) = XFieldError [ENonSlice] /\
+    fst (fst (xconn current true g bad_sync s_info (TCVal 0) a)) = XFieldError [ENonSlice].
+Proof.
+  exists (g_exact E20), a20. split; [reflexivity|]. repeat split; vm_compute; reflexivity.
 Qed.
